@@ -6,7 +6,8 @@
    Operations (one named action per parameter instance so that TLC's state-graph edges identify the call):
      SetCfg_c, DeriveCm_c, DeriveAuthEcc_c, DeriveAuthCust_c (c = 1..3), AppendT, AppendU, InsertT, InsertU, WriteRead.
    Configurations:  1 full naming scheme + security code + bus address;  2 name-only project settings, nothing else;
-                    3 device settings only + security code, no bus-address flag.
+                    3 device settings only + security code, no bus-address flag;
+                    4 full naming scheme with identifier VERSION 0 + security code (the update block carries version 0).
    Switch CFG_NDX_KEYERROR models the code before fix #6 (a component without TYPE tag in front of the configuration
    makes the lookup fail with KeyError, which set_config reads as "no configuration"). *)
 EXTENDS Naturals, Sequences, FiniteSets
@@ -14,11 +15,11 @@ CONSTANTS CFG_NDX_KEYERROR, MaxFw, MaxSteps
 VARIABLES comps, cm, auth, nfw, steps, last
 vars == <<comps, cm, auth, nfw, steps, last>>
 
-Cfgs == 1..3
-HasPrj(c)  == c \in {1, 2}
+Cfgs == 1..4
+HasPrj(c)  == c \in {1, 2, 4}
 HasDev(c)  == c \in {1, 3}
 Bus(c)     == c = 1
-HasCode(c) == c \in {1, 3}
+HasCode(c) == c \in {1, 3, 4}
 None == <<>>
 CmOf(c) == [Configuration |-> IF HasPrj(c) THEN <<"prj", c>> ELSE None,
             DeviceSettings |-> IF HasDev(c) THEN <<"dev", c>> ELSE None,
@@ -57,12 +58,13 @@ AddFw(kind, front) == /\ nfw < MaxFw /\ Tick(IF front THEN "insert" ELSE "append
                       /\ UNCHANGED <<cm, auth>>
 WriteRead == Tick("writeread", 0) /\ UNCHANGED <<comps, cm, auth, nfw>>     \* writing and reading back changes nothing observable
 
-SetCfg1 == SetCfg(1)   SetCfg2 == SetCfg(2)   SetCfg3 == SetCfg(3)
-DeriveCm1 == DeriveCm(1)   DeriveCm2 == DeriveCm(2)   DeriveCm3 == DeriveCm(3)
+SetCfg1 == SetCfg(1)   SetCfg2 == SetCfg(2)   SetCfg3 == SetCfg(3)   SetCfg4 == SetCfg(4)
+DeriveCm1 == DeriveCm(1)   DeriveCm2 == DeriveCm(2)   DeriveCm3 == DeriveCm(3)   DeriveCm4 == DeriveCm(4)
 DeriveAuthEcc1 == DeriveAuth(1, "ecc")   DeriveAuthEcc2 == DeriveAuth(2, "ecc")   DeriveAuthEcc3 == DeriveAuth(3, "ecc")
 DeriveAuthCust1 == DeriveAuth(1, "cust")  DeriveAuthCust2 == DeriveAuth(2, "cust")
+DeriveAuthEcc4 == DeriveAuth(4, "ecc")   DeriveAuthCust4 == DeriveAuth(4, "cust")
 AppendT == AddFw("fwT", FALSE)   AppendU == AddFw("fwU", FALSE)   InsertT == AddFw("fwT", TRUE)   InsertU == AddFw("fwU", TRUE)
-Next == SetCfg1 \/ SetCfg2 \/ SetCfg3 \/ DeriveCm1 \/ DeriveCm2 \/ DeriveCm3
+Next == SetCfg1 \/ SetCfg2 \/ SetCfg3 \/ SetCfg4 \/ DeriveCm1 \/ DeriveCm2 \/ DeriveCm3 \/ DeriveCm4 \/ DeriveAuthEcc4 \/ DeriveAuthCust4
         \/ DeriveAuthEcc1 \/ DeriveAuthEcc2 \/ DeriveAuthEcc3 \/ DeriveAuthCust1 \/ DeriveAuthCust2
         \/ AppendT \/ AppendU \/ InsertT \/ InsertU \/ WriteRead
 Spec == Init /\ [][Next]_vars
